@@ -2,7 +2,7 @@
 # usage: tools/seed_intake.sh <ID>   -- confirm agent-produced seeds in /tmp/seed-<ID>/_seed and store them under /verif/seeded
 ID=$1; ROUND=$2; SRC=/tmp/seed-$ID/_seed; WT=/tmp/wt1
 export GOFLAGS= GOPROXY=off
-for n in 1 2 3 4; do
+for n in ${SEED_ONLY:-1 2 3 4 5}; do
   [ -f $SRC/patch$n.diff ] || continue
   git -C $WT checkout -q -- . ; git -C $WT clean -fdq
   demo=$SRC/demo${n}_test.go
@@ -10,14 +10,14 @@ for n in 1 2 3 4; do
   tname=$(grep -o -m1 -E 'func Test[A-Za-z0-9_]+' $demo | sed 's/func //')
   # without the change: demo passes
   cp $demo $WT/$dir/zz_seed_demo_test.go
-  (cd $WT && go test -vet=off -count=1 -run "^$tname\$" ./$dir >/tmp/seed_clean.log 2>&1); clean=$?
+  (cd $WT && go test $SEED_FLAGS -vet=off -count=1 -run "^$tname\$" ./$dir >/tmp/seed_clean.log 2>&1); clean=$?
   rm -f $WT/$dir/zz_seed_demo_test.go
   # with the change: builds, suite passes, demo fails
   if ! git -C $WT apply $SRC/patch$n.diff; then echo "$ID-$n: patch does not apply"; continue; fi
   (cd $WT && go build ./... >/tmp/seed_build.log 2>&1); build=$?
   (cd $WT && go test -vet=off -count=1 ./... >/tmp/seed_suite.log 2>&1); suite=$?
   cp $demo $WT/$dir/zz_seed_demo_test.go
-  (cd $WT && go test -vet=off -count=1 -run "^$tname\$" ./$dir >/tmp/seed_mut.log 2>&1); mut=$?
+  (cd $WT && go test $SEED_FLAGS -vet=off -count=1 -run "^$tname\$" ./$dir >/tmp/seed_mut.log 2>&1); mut=$?
   rm -f $WT/$dir/zz_seed_demo_test.go
   git -C $WT checkout -q -- .
   echo "$ID-$n: demo_clean_exit=$clean build=$build suite=$suite demo_mutated_exit=$mut ($tname in $dir)"
@@ -31,7 +31,7 @@ src,dst,pid,dir_,t=sys.argv[1:]
 try: m=json.load(open(src))
 except Exception as e: m={"what":"(agent meta unreadable)"}
 out={"property":pid,"breaks":m.get("what"),"needs":m.get("needs"),"files":m.get("files"),
- "demo":{"copy_to":dir_,"test":t,"cmd":f"cp demo_test.go <tree>/{dir_}zz_seed_demo_test.go && cd <tree> && go test -vet=off -count=1 -run '^{t}$' ./{dir_}"},
+ "demo":{"copy_to":dir_,"test":t,"cmd":f"cp demo_test.go <tree>/{dir_}zz_seed_demo_test.go && cd <tree> && go test {__import__('os').environ.get('SEED_FLAGS','')} -vet=off -count=1 -run '^{t}$' ./{dir_}"},
  "confirmed_by_me":{"scratch_worktree":"/tmp/wt1 (removed afterwards)","clean_tree_demo":"pass","with_patch":{"go build ./...":"ok","go test -vet=off -count=1 ./... (existing suite)":"pass","demo":"FAIL"}},
  "agent_report":m.get("verified"),"detected_by":"(filled in below)"}
 json.dump(out,open(dst,"w"),indent=1)
